@@ -90,13 +90,13 @@ def run_prop(prop, tier, seed, replay, nquick, nthorough, extra_cases=None, rule
         run_soak(ck, binary, rng, lambda c, it, ob: mon(c, it, ob, None), dist, only=soak)
     if fixed and not replay:
         run_soak(ck, binary, rng, lambda c, it, ob: mon(c, it, ob, None), dist, scenarios=fixed(rng))
-    model_correspondence(ck, [(c[1], ob) for c, ob in zip(cases, obs)], limit=(150 if tier == "quick" else 1200), name=prop)
+    model_correspondence(ck, [(c[1], ob) for c, ob in zip(cases, obs)], limit=(150 if tier == "quick" else 1200), name=prop, binary=binary)
     ck.distribution = dict(sorted(dist.items(), key=lambda kv: -kv[1])[:40])
     ck.samples = [{"events": [(it.get("op"), it.get("kind"), it.get("expect")) for it in c[2]]} for c in cases[-3:]]
     return ck, (cases, obs)
 
 
-def model_correspondence(ck, pairs, limit, name):
+def model_correspondence(ck, pairs, limit, name, binary=None):
     """Coq agent model (Model/Agent.v) replayed on the histories the implementation ran: replies, sequence numbers,
     number of datapath commands, gauge, end markers, shutdown after every event; tables, store, pools, PFD tables at
     the sampled events (see tools/props/l1model.py)."""
@@ -113,6 +113,21 @@ def model_correspondence(ck, pairs, limit, name):
     except RuntimeError as e:
         ck.tie("correspondence: Coq agent model = implementation on the replayed histories", False, str(e)[-800:])
         return
+    if idx and binary is not None:
+        # a disagreement seen on an observation taken in the parallel run is reported only if it shows again when the
+        # history runs alone (a command batch cut short by the plug-in's timeout on a loaded machine is not a disagreement)
+        still = []
+        for i in idx[:8]:
+            try:
+                ob2 = run_harness(binary, "l1", [kept[i][0]], tag="l1_reconfirm", timeout=600)[0].get("obs", [])
+                t2 = l1model.case_term(kept[i][0], ob2)
+                if t2 is None or coq_eval_shards("L1" + name + "re", l1model.HEADER, [t2], shard=6, timeout=600):
+                    kept[i] = (kept[i][0], ob2)
+                    still.append(i)
+            except (HarnessError, RuntimeError):
+                still.append(i)
+        ck.notes["unconfirmed_model_disagreements"] = len(idx[:8]) - len(still)
+        idx = still + idx[8:]
     for i in idx[:5]:
         ck.mismatch("agent model and implementation disagree on a replayed history",
                     {"input": kept[i][0], "impl_last_event": {k: v for k, v in (kept[i][1][-1] if kept[i][1] else {}).items() if k != "tables"}})
